@@ -8,6 +8,7 @@ import (
 	"os/exec"
 	"path/filepath"
 	"reflect"
+	"regexp"
 	"sort"
 	"strings"
 
@@ -38,6 +39,7 @@ type schemaCtx struct {
 	stdout []byte
 	root   map[string]any
 	defs   map[string]any
+	over   map[string][]byte // what -o leaves when a file already exists at the path
 }
 
 func setupC17(env *engine.Env) error {
@@ -56,6 +58,18 @@ func setupC17(env *engine.Env) error {
 	if err != nil {
 		return err
 	}
+	// the same command again over files that already exist at the -o path (a longer one, a shorter one)
+	over := map[string][]byte{}
+	for name, old := range map[string][]byte{"longer": append(append([]byte{}, raw...), bytes.Repeat([]byte("\n\"x-removed\": true}"), 40)...), "shorter": []byte("{}\n")} {
+		p := filepath.Join(env.Scratch, "schema-out", "over-"+name+".json")
+		if err := os.WriteFile(p, old, 0o644); err != nil {
+			return err
+		}
+		if b, err := exec.Command(bin, "jsonschema", "-o", p).CombinedOutput(); err != nil {
+			return fmt.Errorf("nfpm jsonschema -o (existing file): %v: %s", err, b)
+		}
+		over[name], _ = os.ReadFile(p)
+	}
 	so, err := exec.Command(bin, "jsonschema").Output()
 	if err != nil {
 		return fmt.Errorf("nfpm jsonschema: %v", err)
@@ -65,7 +79,7 @@ func setupC17(env *engine.Env) error {
 		return fmt.Errorf("schema is not JSON: %v", err)
 	}
 	defs, _ := root["$defs"].(map[string]any)
-	env.Data["schema"] = &schemaCtx{raw: raw, stdout: so, root: root, defs: defs}
+	env.Data["schema"] = &schemaCtx{raw: raw, stdout: so, root: root, defs: defs, over: over}
 	return nil
 }
 
@@ -90,42 +104,97 @@ func (s *schemaCtx) resolve(sch map[string]any) (map[string]any, error) {
 }
 
 var knownKeywords = map[string]bool{"$ref": true, "$schema": true, "$id": true, "$defs": true, "type": true, "properties": true, "additionalProperties": true,
-	"required": true, "enum": true, "items": true, "format": true, "title": true, "description": true, "default": true, "examples": true}
+	"required": true, "enum": true, "items": true, "format": true, "title": true, "description": true, "default": true, "examples": true,
+	"const": true, "propertyNames": true, "patternProperties": true, "pattern": true, "minLength": true, "maxLength": true, "minItems": true, "maxItems": true,
+	"uniqueItems": true, "minimum": true, "maximum": true, "anyOf": true, "oneOf": true, "allOf": true, "not": true, "minProperties": true, "maxProperties": true,
+	"$comment": true, "deprecated": true, "readOnly": true, "writeOnly": true}
 
-// validate returns the reasons v does not conform to sch ("" path = root).
-func (s *schemaCtx) validate(sch map[string]any, v any, at string, errs *[]string, unsupported *[]string) {
-	sch, err := s.resolve(sch)
-	if err != nil {
-		*unsupported = append(*unsupported, err.Error())
-		return
+func typeOK(t string, v any) (bool, bool) {
+	switch t {
+	case "object":
+		_, ok := v.(map[string]any)
+		return ok, true
+	case "array":
+		_, ok := v.([]any)
+		return ok, true
+	case "string":
+		_, ok := v.(string)
+		return ok, true
+	case "boolean":
+		_, ok := v.(bool)
+		return ok, true
+	case "integer":
+		f, isNum := v.(float64)
+		return isNum && f == float64(int64(f)), true
+	case "number":
+		_, ok := v.(float64)
+		return ok, true
+	case "null":
+		return v == nil, true
+	}
+	return false, false
+}
+
+// validate returns the reasons v does not conform to sch ("" path = root). It covers the JSON Schema keywords a
+// generated schema of this kind can reasonably contain; anything else is reported as unsupported (harness error).
+func (s *schemaCtx) validate(schAny map[string]any, v any, at string, errs *[]string, unsupported *[]string) {
+	sch := schAny
+	if _, isRef := sch["$ref"]; isRef {
+		r, err := s.resolve(sch)
+		if err != nil {
+			*unsupported = append(*unsupported, err.Error())
+			return
+		}
+		sch = r
 	}
 	for k := range sch {
 		if !knownKeywords[k] {
 			*unsupported = append(*unsupported, "keyword "+k)
 		}
 	}
-	if t, ok := sch["type"].(string); ok {
-		okType := false
-		switch t {
-		case "object":
-			_, okType = v.(map[string]any)
-		case "array":
-			_, okType = v.([]any)
-		case "string":
-			_, okType = v.(string)
-		case "boolean":
-			_, okType = v.(bool)
-		case "integer":
-			f, isNum := v.(float64)
-			okType = isNum && f == float64(int64(f))
-		case "number":
-			_, okType = v.(float64)
-		default:
+	sub := func(x any) (map[string]any, bool) {
+		switch t := x.(type) {
+		case map[string]any:
+			return t, true
+		case bool:
+			if t {
+				return map[string]any{}, true
+			}
+			return map[string]any{"not": map[string]any{}}, true
+		}
+		return nil, false
+	}
+	valid := func(x any, val any) bool {
+		m, ok := sub(x)
+		if !ok {
+			return true
+		}
+		var e []string
+		s.validate(m, val, at, &e, unsupported)
+		return len(e) == 0
+	}
+	switch t := sch["type"].(type) {
+	case string:
+		ok, known := typeOK(t, v)
+		if !known {
 			*unsupported = append(*unsupported, "type "+t)
 			return
 		}
-		if !okType {
+		if !ok {
 			*errs = append(*errs, fmt.Sprintf("%s: value %v is not of type %s", at, v, t))
+			return
+		}
+	case []any:
+		any1 := false
+		for _, tt := range t {
+			if ts, ok := tt.(string); ok {
+				if ok2, _ := typeOK(ts, v); ok2 {
+					any1 = true
+				}
+			}
+		}
+		if !any1 {
+			*errs = append(*errs, fmt.Sprintf("%s: value %v is of none of the types %v", at, v, t))
 			return
 		}
 	}
@@ -140,16 +209,75 @@ func (s *schemaCtx) validate(sch map[string]any, v any, at string, errs *[]strin
 			*errs = append(*errs, fmt.Sprintf("%s: value %q is not one of %v", at, v, en))
 		}
 	}
+	if c, ok := sch["const"]; ok && !reflect.DeepEqual(c, v) {
+		*errs = append(*errs, fmt.Sprintf("%s: value %v is not the constant %v", at, v, c))
+	}
+	if str, ok := v.(string); ok {
+		if p, ok := sch["pattern"].(string); ok {
+			if re, err := regexp.Compile(p); err != nil {
+				*unsupported = append(*unsupported, "pattern "+p)
+			} else if !re.MatchString(str) {
+				*errs = append(*errs, fmt.Sprintf("%s: %q does not match pattern %s", at, str, p))
+			}
+		}
+		n := float64(len([]rune(str)))
+		if m, ok := sch["minLength"].(float64); ok && n < m {
+			*errs = append(*errs, fmt.Sprintf("%s: %q is shorter than %v", at, str, m))
+		}
+		if m, ok := sch["maxLength"].(float64); ok && n > m {
+			*errs = append(*errs, fmt.Sprintf("%s: %q is longer than %v", at, str, m))
+		}
+	}
+	if num, ok := v.(float64); ok {
+		if m, ok := sch["minimum"].(float64); ok && num < m {
+			*errs = append(*errs, fmt.Sprintf("%s: %v is below the minimum %v", at, num, m))
+		}
+		if m, ok := sch["maximum"].(float64); ok && num > m {
+			*errs = append(*errs, fmt.Sprintf("%s: %v is above the maximum %v", at, num, m))
+		}
+	}
 	if obj, ok := v.(map[string]any); ok {
 		props, _ := sch["properties"].(map[string]any)
+		pprops, _ := sch["patternProperties"].(map[string]any)
 		for _, r := range anyStrings(sch["required"]) {
 			if _, has := obj[r]; !has {
 				*errs = append(*errs, fmt.Sprintf("%s: required key %q missing", at, r))
 			}
 		}
+		if m, ok := sch["minProperties"].(float64); ok && float64(len(obj)) < m {
+			*errs = append(*errs, fmt.Sprintf("%s: fewer than %v keys", at, m))
+		}
+		if m, ok := sch["maxProperties"].(float64); ok && float64(len(obj)) > m {
+			*errs = append(*errs, fmt.Sprintf("%s: more than %v keys", at, m))
+		}
+		pn, hasPN := sub(sch["propertyNames"])
 		for k, val := range obj {
+			if hasPN && sch["propertyNames"] != nil {
+				var e []string
+				s.validate(pn, k, at+"/"+k, &e, unsupported)
+				if len(e) > 0 {
+					*errs = append(*errs, fmt.Sprintf("%s: key %q is not an allowed key name (%s)", at, k, strings.Join(e, "; ")))
+				}
+			}
+			matched := false
 			if ps, ok := props[k].(map[string]any); ok {
 				s.validate(ps, val, at+"/"+k, errs, unsupported)
+				matched = true
+			}
+			for pat, ps := range pprops {
+				re, err := regexp.Compile(pat)
+				if err != nil {
+					*unsupported = append(*unsupported, "patternProperties "+pat)
+					continue
+				}
+				if re.MatchString(k) {
+					if pm, ok := sub(ps); ok {
+						s.validate(pm, val, at+"/"+k, errs, unsupported)
+					}
+					matched = true
+				}
+			}
+			if matched {
 				continue
 			}
 			switch ap := sch["additionalProperties"].(type) {
@@ -163,11 +291,58 @@ func (s *schemaCtx) validate(sch map[string]any, v any, at string, errs *[]strin
 		}
 	}
 	if arr, ok := v.([]any); ok {
-		if it, ok := sch["items"].(map[string]any); ok {
+		if it, ok := sub(sch["items"]); ok && sch["items"] != nil {
 			for i, e := range arr {
 				s.validate(it, e, fmt.Sprintf("%s/%d", at, i), errs, unsupported)
 			}
 		}
+		if m, ok := sch["minItems"].(float64); ok && float64(len(arr)) < m {
+			*errs = append(*errs, fmt.Sprintf("%s: fewer than %v items", at, m))
+		}
+		if m, ok := sch["maxItems"].(float64); ok && float64(len(arr)) > m {
+			*errs = append(*errs, fmt.Sprintf("%s: more than %v items", at, m))
+		}
+		if u, _ := sch["uniqueItems"].(bool); u {
+			for i := range arr {
+				for j := i + 1; j < len(arr); j++ {
+					if reflect.DeepEqual(arr[i], arr[j]) {
+						*errs = append(*errs, fmt.Sprintf("%s: items %d and %d are equal", at, i, j))
+					}
+				}
+			}
+		}
+	}
+	if l, ok := sch["allOf"].([]any); ok {
+		for i, x := range l {
+			if !valid(x, v) {
+				*errs = append(*errs, fmt.Sprintf("%s: allOf branch %d fails", at, i))
+			}
+		}
+	}
+	if l, ok := sch["anyOf"].([]any); ok {
+		n := 0
+		for _, x := range l {
+			if valid(x, v) {
+				n++
+			}
+		}
+		if n == 0 {
+			*errs = append(*errs, fmt.Sprintf("%s: no anyOf branch matches", at))
+		}
+	}
+	if l, ok := sch["oneOf"].([]any); ok {
+		n := 0
+		for _, x := range l {
+			if valid(x, v) {
+				n++
+			}
+		}
+		if n != 1 {
+			*errs = append(*errs, fmt.Sprintf("%s: %d oneOf branches match", at, n))
+		}
+	}
+	if x, ok := sch["not"]; ok && valid(x, v) {
+		*errs = append(*errs, fmt.Sprintf("%s: matches the schema under not", at))
 	}
 }
 
@@ -567,6 +742,11 @@ func checkC17(env *engine.Env, ci any) engine.Outcome {
 				cls = "bytes-only"
 			}
 			viol("schema:published-differs:"+cls, "www/docs/static/schema.json (%d bytes) is not identical to the file `nfpm jsonschema -o` writes (%d bytes); same JSON value: %v; first difference at byte %d", len(pub), len(sc.raw), same, firstDiff(pub, sc.raw))
+		}
+		for name, b := range sc.over {
+			if !bytes.Equal(b, sc.raw) {
+				viol("schema:o-over-existing-file:"+name, "`nfpm jsonschema -o FILE` over an existing %s file leaves %d bytes, a fresh path gets %d bytes (first difference at byte %d)", name, len(b), len(sc.raw), firstDiff(b, sc.raw))
+			}
 		}
 		if strings.TrimSpace(string(sc.stdout)) != strings.TrimSpace(string(sc.raw)) {
 			viol("schema:stdout-differs", "`nfpm jsonschema` on stdout differs from the file written with -o")
